@@ -489,6 +489,62 @@ impl World {
                 }
                 return None;
             }
+            Op::PresetProbe { k } => {
+                if self.entry != Entry::Lib {
+                    return None;
+                }
+                let cid = ops::fresh_id(self.seed, 7000 + *k as u16);
+                let x = ops::fresh_id(self.seed, 7100 + *k as u16);
+                let made = (|| -> anyhow::Result<bool> {
+                    let mut t = self.store.raw.txn(cid)?;
+                    if t.get_client()?.is_some() {
+                        return Ok(false);
+                    }
+                    t.new_client(x)?;
+                    t.commit()?;
+                    Ok(true)
+                })();
+                match made {
+                    Ok(true) => {}
+                    Ok(false) => return None,
+                    Err(e) => {
+                        out.violations.push(viol(&["C13"], "preset.create_failed", format!("creating a client through the storage failed: {e:#}")));
+                        return None;
+                    }
+                }
+                out.bump("probe.preset_client_with_nonnil_latest");
+                let foreign = self.model.clients.values().flat_map(|c| c.versions.iter().map(|v| v.id)).next();
+                let mut ps: Vec<(&str, Id)> = vec![("nil", uuid::Uuid::nil()), ("a fresh id", ops::fresh_id(self.seed, 7200 + *k as u16))];
+                if let Some(f) = foreign {
+                    ps.push(("another client's version", f));
+                }
+                ps.push(("its latest id", x));
+                for (what, p) in ps {
+                    let gc = self.inst.call_lib(&Req::GetChild { c: cid, parent: p });
+                    let av = self.inst.call_lib(&Req::AddVersion { c: cid, parent: p, data: std::sync::Arc::new(vec![b'p', *k]) });
+                    let agree = match (&gc, &av) {
+                        (Resp::GcNotFound, Resp::AvOk { .. }) => true,
+                        (Resp::GcGone, Resp::AvConflict { .. }) => true,
+                        _ => false,
+                    };
+                    let want_accept = p == x;
+                    let right = matches!(&av, Resp::AvOk { .. }) == want_accept && (!matches!(&av, Resp::AvConflict { expected } if *expected != x));
+                    if !agree || !right {
+                        out.violations.push(viol(
+                            &["C08", "C02"],
+                            "preset.gc_av_disagree",
+                            format!(
+                                "client created through the storage with latest {} and no versions, parent = {what}: GetChildVersion -> {}, AddVersion -> {} (not-found must go with accepted, gone with rejected; only the latest id is acceptable)",
+                                sid(&x),
+                                gc.short(),
+                                av.short()
+                            ),
+                        ));
+                        break;
+                    }
+                }
+                return None;
+            }
             Op::SeedSnap { c, since, age_us } => {
                 let cid = client_id(self.seed, *c);
                 let has = self.model.client(&cid).and_then(|cl| cl.snap.as_ref()).is_some();
@@ -1532,6 +1588,9 @@ pub fn gen_parentgrid(seed: u64, idx: u64, backend: Backend, entry: Entry) -> Se
     ops_v.push(Op::GetChild { c: 0, parent: parg.clone() });
     ops_v.push(Op::AddVersion { c: 0, parent: parg.clone(), pay: pay(&mut r), ch: Chunking::Whole });
     ops_v.push(Op::GetChild { c: 0, parent: parg.clone() });
+    if entry == Entry::Lib {
+        ops_v.push(Op::PresetProbe { k: 0 });
+    }
     ops_v.push(Op::Restart);
     ops_v.push(Op::GetChild { c: 0, parent: parg });
     SeqPlan {
